@@ -2,6 +2,7 @@
 //!
 //!   drv-reqres exec --progs P.ndjson --work DIR --out T.ndjson
 //!       every line of P is {"cfg":{..},"steps":[{"a":..,"c":..,"s":..,"n":..,"j":..,"h":..},..]}
+//!   drv-reqres conc --progs P.ndjson --work DIR --out T.ndjson      concurrent executions, see conc.rs
 //!   drv-reqres params --cfgs C.ndjson --work DIR      prints the chunk counts the code uses per cfg
 //!   drv-reqres gen --cfgs C.ndjson --runs N --len L --work DIR --out T.ndjson [--progs-out P.ndjson]
 //!       [--avoid-dead-client-send] [--api 0|1|2] [--churn PCT] [--probes]
@@ -12,6 +13,7 @@
 
 extern crate iceoryx2_bb_loggers;
 
+mod conc;
 mod r#gen;
 mod world;
 
@@ -51,10 +53,10 @@ impl Runner {
     }
 
     fn finish_run<S: Service>(&mut self, w: World<S>) {
-        for (k, v) in &w.counts {
+        for (k, v) in &w.counts() {
             *self.counts.entry(k.clone()).or_insert(0) += v;
         }
-        let poisoned = w.poisoned;
+        let poisoned = w.poisoned();
         if poisoned {
             self.panics += 1;
         }
@@ -110,7 +112,7 @@ impl Runner {
             let rec = w.exec(&st);
             self.emit(&rec);
             steps.push(st);
-            if w.poisoned {
+            if w.poisoned() {
                 break;
             }
         }
@@ -172,6 +174,28 @@ fn main() {
                     r.run_program::<ipc::Service>(&cfg, &steps);
                 }
             }
+        }
+        Some("conc") => {
+            let progs = vlib::trace::read_ndjson(&args.get("progs").expect("--progs"));
+            let mut rng = Rng::new(vlib::seed_from_env().wrapping_mul(0x2000_0003).wrapping_add(args.num("stream", 0)));
+            let mut stats = conc::ConcStats::default();
+            for p in progs {
+                let p = conc::ConcProg::from_json(&p);
+                if p.cfg.svc == "local" {
+                    r.run_conc::<local::Service>(&p, &mut rng, &mut stats);
+                } else {
+                    r.run_conc::<ipc::Service>(&p, &mut rng, &mut stats);
+                }
+            }
+            r.out.flush();
+            let left = leftovers(&work);
+            let counts: serde_json::Map<String, Value> = r.counts.iter().map(|(k, v)| (k.clone(), json!(v))).collect();
+            println!(
+                "{}",
+                json!({"runs": r.run, "events": r.events, "panics": r.panics, "teardown_failures": r.teardown_failures,
+                       "leftovers": left, "counts": counts, "conc": stats.to_json()})
+            );
+            return;
         }
         Some("params") => {
             // parameter extraction (DESIGN.md 3.3): chunk counts published by the running code
